@@ -237,6 +237,16 @@ class Model:
         ra, rb = a.ndim - len(la), b.ndim - len(lb)
         return self._product(np.conj(a), la, b, lb, AX[:ra], AX[ra:ra + rb], AX[:ra + rb])
 
+    def op_outerN(self, r, s):
+        # documented as repeated binary outer products from the left (real data only in the generator)
+        vals = [self.ev(x, s) for x in r[1]]
+        if any(la for _, la in vals):
+            raise ModelError("outer with labels")
+        acc = vals[0][0]
+        for b, _ in vals[1:]:
+            acc = np.multiply.outer(np.conj(acc), b)
+        return acc, ()
+
     def op_cross(self, r, s):
         (a, la), (b, lb) = self.ev(r[1], s), self.ev(r[2], s)
         if la or lb:
